@@ -21,6 +21,23 @@ def shape_ok(arr, what):
 
 
 def run_vector(vec):
+    """every vector is run with the value array in several dtypes (a wrong shape is refused whatever the dtype), and stock
+    constructors that must be refused also with the time dimension designated by its NAME instead of its letter"""
+    cfg = vec["cfg"]
+    problems = []
+    if cfg["op"] == "array_ctor" and cfg["shape"] != [-1]:
+        for dt in (np.float64, np.float32, np.float16, np.int64, np.int32):
+            problems += [p.replace("{C13} ", f"{{C13}} [values dtype {np.dtype(dt).name}] ", 1) for p in run_one(vec, dtype=dt)]
+            if problems:
+                break
+    else:
+        problems += run_one(vec)
+    if cfg["op"] == "stock_ctor" and vec["res"] == "error" and cfg["tl"] in ("t", "a", "b", "c"):
+        problems += [p.replace("{C13} ", "{C13} [time dimension given by name] ", 1) for p in run_one(vec, tl_by_name=True)]
+    return problems
+
+
+def run_one(vec, dtype=np.float64, tl_by_name=False):
     cfg, exp = vec["cfg"], vec["res"]
     U = ctor_universe()
     op, cls_name, via, ds = cfg["op"], cfg["cls"], cfg["via"], cfg["ds"]
@@ -34,7 +51,7 @@ def run_vector(vec):
             if shape == [-1]:
                 v = 3.0
             else:
-                v = np.arange(1, (int(np.prod(shape)) if shape else 1) + 1, dtype=float).reshape(shape)  # stays an ndarray for shape ()
+                v = np.arange(1, (int(np.prod(shape)) if shape else 1) + 1, dtype=float).reshape(shape).astype(dtype)  # stays an ndarray for shape ()
                 assert isinstance(v, np.ndarray)
             if via == "ctor":
                 made.append(("constructed array", cls(dims=U.dimset(ds), values=v)))
@@ -52,7 +69,7 @@ def run_vector(vec):
                     problems += unchanged(x, sx, "{C13} target after a refused " + via)
         elif op == "stock_ctor":
             cls = getattr(flodym, cls_name)
-            kw = dict(dims=U.dimset(ds), time_letter=cfg["tl"], name="s")
+            kw = dict(dims=U.dimset(ds), time_letter=(U.name(cfg["tl"]) if tl_by_name else cfg["tl"]), name="s")
             if via != "none":
                 kw[via] = flodym.StockArray(dims=U.dimset(cfg["b"]))
             if cls_name != "SimpleFlowDrivenStock":
